@@ -41,11 +41,17 @@ def consts : Consts Float where
   maxTrackBeamlineDca := C14b.maxTrackBeamlineDca
   maxBeamlineClusteringDistance := C14b.maxBeamlineClusteringDistance
 
-/-- Ranking of the Hough bin codes by first appearance (`Driver/C15b.lean`), computed once per
-point cloud. -/
-def renOf (prm : Hough.Params Float) (pts : Array (Hough.Point Float)) : Nat → Nat :=
-  let m := C15b.rankMap (C15b.allCodes prm pts)
-  fun c => m.getD c 0
+/-- Lookup in a finished ranking (a partial application `lookupRank m` holds the map). -/
+@[noinline] def lookupRank (m : Std.HashMap Nat Nat) (c : Nat) : Nat := m.getD c 0
+
+/-- Ranking of the Hough bin codes by first appearance (`Driver/C15b.lean`: `rankFn (allCodes prm
+pts)`), computed once per point cloud: the model applies `Pipe.ren` to the points once and hands
+the resulting closure to the clustering. -/
+@[noinline] def renOf (prm : Hough.Params Float) (pts : Array (Hough.Point Float)) : Nat → Nat :=
+  lookupRank (C15b.rankMap (C15b.allCodes prm pts))
+
+theorem renOf_eq (prm : Hough.Params Float) (pts : Array (Hough.Point Float)) :
+    renOf prm pts = C15b.rankFn (C15b.allCodes prm pts) := rfl
 
 def pipe (T : Avalanches.Tables Float) : Pipe Float where
   deconv := Deconv.floatOps
@@ -124,6 +130,22 @@ def pointsAnswer (args : List String) : String :=
     | .panic site => s!"panic {site}"
   | none => "bad-request"
 
+/-- Debugging: run the pipeline up to stage `k` (3: clusters, 4: tracks) and print a size. -/
+def uptoAnswer (k : Nat) (args : List String) : String :=
+  match parseEvent args with
+  | some (T, ev) =>
+    match pointsOfSignals (pipe T) ev with
+    | .ok pts =>
+      match stageClusters (pipe T) pts with
+      | .ok r =>
+        if k ≤ 3 then s!"ok clusters {r.clusters.length}" else
+        match stageTracks (pipe T) pts r.clusters with
+        | .ok ts => s!"ok tracks {ts.size}"
+        | _ => "other"
+      | _ => "other"
+    | _ => "other"
+  | none => "bad-request"
+
 def constsAnswer : String :=
   "ok " ++ " ".intercalate ([consts.adcRate, consts.wirePitchPhi, consts.maxClusterDistance,
     consts.epsilon, consts.delta, consts.minTrackLength, consts.maxTrackBeamlineDca,
@@ -134,6 +156,8 @@ def handle (cmd : String) (args : List String) : Option String :=
   | "vertex", rest => some (vertexAnswer rest)
   | "vertexstages", rest => some (stagesAnswer rest)
   | "vertexpoints", rest => some (pointsAnswer rest)
+  | "vertexupto3", rest => some (uptoAnswer 3 rest)
+  | "vertexupto4", rest => some (uptoAnswer 4 rest)
   | "vertexconsts", [] => some constsAnswer
   | _, _ => none
 
